@@ -39,6 +39,11 @@ where
 
 pub fn until_next_unindented(input: &str, at_least_until: usize, fallback_len: usize) -> &str {
     let mut prev_was_newline = false;
+    // An error at the very end of the input puts `at_least_until` past the end.
+    let mut at_least_until = at_least_until.min(input.len());
+    while !input.is_char_boundary(at_least_until) {
+        at_least_until += 1;
+    }
     for (idx, ch) in input[at_least_until..].char_indices() {
         if prev_was_newline && ch.is_ascii_alphanumeric() {
             // Found "\n[A-Za-z0-9]" pattern, return up to the newline
